@@ -1,5 +1,5 @@
 """Registry of all translators: Gen/<name>.v  <-  function returning Coq text."""
-from translate import ops, gatecode, wrapper, groupsum, guards, parse, models, dispatch
+from translate import ops, gatecode, wrapper, groupsum, guards, parse, models, dispatch, thermo
 
 ALL = {
     "Ops": ops.gen_ops,
@@ -13,4 +13,5 @@ ALL = {
     "Parse": parse.gen_parse,
     "Models": models.gen_models,
     "Dispatch": dispatch.gen_dispatch,
+    "ThermoSrc": thermo.gen_thermo,
 }
